@@ -98,7 +98,7 @@ CHECKS = {
  "C06": dict(
   text="Coq theorems (Props/C06.v). MAC core: every send hands out exactly the current FCntUp and does not move it; rx2_complete moves it by +1 or reports SessionExpired at 2^32-1 "
        "(never wraps); a receive never rewinds it. Asynchronous front-end (Model/AsyncDev.v: Device::send / join / rxc_listen, RX1/RX2 windows, Class C reception between the windows): "
-       "C06_async_send_concludes_the_uplink -- for EVERY radio behaviour (any script of timeouts, errors, frames, pending receptions; a fault at any radio call; Class C or not) a send that "
+       "C06_async_send_concludes_the_uplink -- for EVERY radio behaviour (any script of timeouts, errors, frames, pending receptions; one failing radio call or an outage of any number of calls in a row; Class C or not) a send that "
        "returns, with a value or an error, has moved the session's counter past the counter of the frame it built or reports SessionExpired with the counter space exhausted, keys unchanged; "
        "C06_async_counters_strictly_increase -- any two uplinks of one session are built from strictly increasing counters whatever happened in between. Non-blocking front-end "
        "(Model/NbDev.v: the state machine of nb_device/state.rs as a pure function of state, MAC, event and the radio's answer): C06_nb_counters_strictly_increase -- for EVERY sequence of "
